@@ -9,15 +9,16 @@
 //	rdfa-soup     random RDFa attribute trees  → htmlrdfa      = Rdfa.denote (T3)
 //	md-soup       random Microdata trees       → htmlmicrodata = Microdata.denote (T3)
 //	jsonld        graph → JSON-LD text in script elements → htmljsonld = graph (oracle); script extraction = `scriptsNode` (T3)
+//	(round 3: generator families "prefix scope", "host default vocabulary", "ids on ancestors": see families.go)
 //	combined      one document with all three → htmldefaults = concatenation of the three sub-decoders = disjoint union of
 //	              the three graphs; no blank node of one sub-stream TermEquals one of another; chain model (T3)
 package main
 
 import (
 	"encoding/json"
-	"net/url"
 	"flag"
 	"fmt"
+	"net/url"
 	"os"
 	"sort"
 	"strings"
@@ -583,6 +584,8 @@ func (h *harness) rdfaWriter(n int) {
 		for _, k := range scopeStats("rdfa-writer(written)", mo.doc) {
 			h.rep.Count(k)
 		}
+		// ids are irrelevant markup: the denotation `mo.g` is that of the decorated document too (rdfa_denote_ignores_ids)
+		h.maybeDecorate("rdfa-writer", mo.doc)
 		pdoc, loc := h.present(mo.doc, c.base)
 		text := h.serialise("rdfa-writer", loc, pdoc)
 		if text == "" {
@@ -687,8 +690,11 @@ func (h *harness) mdWriter(n int) {
 			// the writer reports that it could not express the graph (blank-node objects and no valid candidate)
 			continue
 		}
+		// fresh ids that no itemref names are irrelevant markup: the denotation `mo.g` is that of the decorated document
+		// too (microdata_denote_ignores_unreferenced_ids; decorateIDs never makes an id equal to an itemref token)
+		h.maybeDecorate("md-writer", mo.doc)
 		if nestedTargets(mo.doc) > 0 {
-			h.rep.Count("md-writer:itemref target below an element with an id")
+			h.rep.Count("md-writer:itemref target below an element with an id (writer knob or decoration)")
 		}
 		pdoc, loc := h.present(mo.doc, c.base)
 		text := h.serialise("md-writer", loc, pdoc)
@@ -1114,7 +1120,7 @@ func (h *harness) combined(n int) {
 func main() {
 	flag.Parse()
 	seed := vh.SeedFromEnv()
-	rep := vh.NewReport("C11", *tier, seed, "documents serialised from abstract trees (random attribute order, quoting, name case, whitespace, character references, comments) that the HTML5 parser reproduces verbatim; graphs of 1-7 triples over IRIs spelt absolutely / as CURIEs / safe CURIEs / terms / relative references, blank nodes, plain / language-tagged / typed literals over a hot alphabet; non-trivial = graph of at least 2 triples (writer families), at least one decoded statement (soup families)")
+	rep := vh.NewReport("C11", *tier, seed, "documents serialised from abstract trees (random attribute order, quoting, name case, whitespace, character references, comments) that the HTML5 parser reproduces verbatim; graphs of 1-7 triples over IRIs spelt absolutely / as CURIEs / safe CURIEs / terms / relative references, blank nodes, plain / language-tagged / typed literals over a hot alphabet; round-3 families: IRIs whose scheme is a prefix name that a sibling subtree declares (prefix scope), @vocab equal to the decoder's host default vocabulary with predefined and plain terms, unreferenced id attributes on any element incl. ancestors of itemref targets; non-trivial = graph of at least 2 triples (writer families), at least one decoded statement (soup families)")
 	fs, err := vh.LoadFindings(*findings)
 	if err != nil {
 		fmt.Fprintln(os.Stderr, "findings:", err)
@@ -1144,7 +1150,7 @@ func main() {
 		h.quiet = true
 		h.replayFile(*corpus)
 		h.quiet = false
-		n := 5000
+		n := 10000
 		if *tier == "thorough" {
 			n = 200000
 		}
